@@ -508,9 +508,12 @@ Proof.
   - cbn [firstn]. f_equal. change (x :: firstn n' r) with (firstn (S n') (x :: r)).
     rewrite firstn_firstn. f_equal. lia.
   - destruct (t_order x =? t_order v).
-    + change (x :: firstn n' r) with (firstn (S n') (x :: r)). rewrite firstn_firstn. f_equal. lia.
+    + change (x :: firstn n' r) with (firstn (S n') (x :: r)). rewrite firstn_firstn, Nat.min_id. reflexivity.
     + cbn [firstn]. f_equal. apply IH.
 Qed.
+
+Lemma map_removelast_firstn {A B} (f : A -> B) x l : map f (removelast (x :: l)) = firstn (length l) (map f (x :: l)).
+Proof. rewrite removelast_firstn_len, firstn_map. reflexivity. Qed.
 
 (* one arrival that does not merge: sorted insertion, then keep the newest N *)
 Lemma abs_step_topn md cs b c lag cs' b' app0 :
@@ -542,9 +545,8 @@ Proof.
       * rewrite map_app. cbn [map]. rewrite Nat.add_0_r.
         replace (length hi + length (pv :: lo'))%nat with (length (map proj hi) + length (pv :: lo'))%nat by (rewrite Hlen; reflexivity).
         rewrite firstn_app_2. f_equal.
-        change (proj (fresh c lagv)) with (pc c).
-        change (firstn (length (pv :: lo')) (pc c :: map proj (pv :: lo'))) with (pc c :: firstn (length lo') (map proj (pv :: lo'))).
-        f_equal. rewrite removelast_firstn_len, firstn_map. cbn [length Nat.pred]. reflexivity.
+        change (pc c :: map proj (removelast (pv :: lo')) = pc c :: firstn (length lo') (map proj (pv :: lo'))).
+        f_equal. apply map_removelast_firstn.
       * rewrite map_app. cbn [map]. rewrite firstn_all2; [reflexivity|].
         rewrite app_length, map_length. cbn [length]. rewrite map_length. lia.
 Qed.
